@@ -678,7 +678,17 @@ outerLoop:
 		}
 		var spacing pr.Float
 		if table.Style.GetBorderCollapse() == "separate" {
-			spacing = pr.Float(cell.Colspan-1) * table.Style.GetBorderSpacing()[0].Value
+			// (columns with no originating cell get no spacing)
+			inner := 0
+			for s := columnSlice[0] + 1; s < columnSlice[1]; s += 1 {
+				for _, b := range zippedGrid[s] {
+					if b != nil {
+						inner += 1
+						break
+					}
+				}
+			}
+			spacing = pr.Float(inner) * table.Style.GetBorderSpacing()[0].Value
 		}
 
 		if minContent > columnsMinContent+spacing {
